@@ -24,7 +24,7 @@ def cases(rng, tier, X):
             if c < 0.55:
                 m = rng.choice([mapper, mapper, mapper, rng.choice(F.STATIONS)])
                 eth = rng.choice([None, None, rng.choice(F.STATIONS)])
-                ops.append('rx 0 ' + F.discover(m, rng.choice([0, 1, 0x00ff, 0xff00, 0xffff, rng.randrange(65536)]), rng.randrange(65536),
+                ops.append('rx 0 ' + F.discover(m, rng.choice(F.GENS + [rng.randrange(65536)]), rng.randrange(65536),
                                                  [own] if rng.random() < 0.3 else [], tos=rng.choice([0, 0, 1]), eth_src=eth))
             elif c < 0.70:
                 ops.append('rx 0 ' + F.hello(rng.choice(F.STATIONS), rng.randrange(65536), mapper, mapper, tos=rng.choice([0, 1])))
